@@ -687,7 +687,7 @@ pub fn apply_adv<A: Adapter>(
                 let ch: Vec<A::F> = (0..n)
                     .map(|_| sp.squeeze_field_elements_with_sizes::<A::F>(&[ark_poly_commit::CHALLENGE_SIZE])[0])
                     .collect();
-                let (xi, r2) = (ch[adv.k as usize - 1], ch[adv.d as usize - 1]);
+                let (xi, r2) = (ch[adv.k as usize - 1], if adv.d > 0 { ch[adv.d as usize - 1] } else { A::F::one() });
                 let d: A::F = delta(beh, "plus");
                 let key = (plabel(adv.l), A::make_point(adv.pt, beh));
                 if r2.is_zero() || !evals.contains_key(&key) {
